@@ -121,6 +121,7 @@ class Exec:
         self.global_regions = {}
         self.stats = dict(blocks=0, edges=0, ins=0, inlined=0)
         self.assumptions = []    # constraints introduced by stubs (e.g. allocator results are fresh)
+        self._sdivs = {}         # per run: AST id of a bvsdiv result -> (dividend, divisor, result)
         self.arith_log = []      # executed mul/sdiv/srem with symbolic operands: dict(op, g, x, y, r, fn) (operand lemmas)
         self.trace_functions = set()
         self._layout_cache = {}
@@ -767,7 +768,7 @@ class Exec:
             need(z3.And(x == z3.BitVecVal(1 << (w - 1), w), y == z3.BitVecVal(-1, w)), 'signed division overflow (MIN / -1)')
             if op == 'sdiv':
                 r = z3.BVSDiv(x, y) if hasattr(z3, 'BVSDiv') else x / y
-                self._sdivs[r.get_id()] = (x, y)
+                self._sdivs[r.get_id()] = (x, y, r)      # keeping r alive keeps its AST id unique
                 self.arith_log.append(dict(op='sdiv', g=g, x=x, y=y, r=r, fn=fn))
             else:
                 r = z3.SRem(x, y)
@@ -779,12 +780,11 @@ class Exec:
             raise Unsupported('binop ' + op)
         return r
 
-    _sdivs = {}
 
     def _as_sdiv(self, q, b):
         d = self._sdivs.get(q.get_id())
-        if d is not None and d[1].eq(b):
-            return d
+        if d is not None and d[2].eq(q) and d[1].eq(b):
+            return d[0], d[1]
         return None
 
     def icmp(self, pred, x, y):
